@@ -298,9 +298,16 @@ class GarbageCollector:
             # whose target may live anywhere (a manifest, a file in a
             # sub-directory): protecting data/<name> then protects nothing.
             # Trust the name only when it leads to a file.
-            if not _NEW_STYLE_MARKER_RE.match(basename) and self.storage.exists(fallback):
-                return fallback
-            raise _MarkerUnreadable("empty payload and no data file of the marker's name")
+            if not _NEW_STYLE_MARKER_RE.match(basename):
+                try:
+                    if self.storage.exists(fallback):
+                        return fallback
+                except Exception as e:
+                    raise _MarkerUnreadable(f"empty payload, and {fallback} cannot be probed: {e}") from e
+            raise _MarkerUnreadable(
+                "empty payload and no data file of the marker's name (if this is the left-over "
+                "of a writer that is known to be dead, delete the marker)"
+            )
         try:
             payload = json.loads(raw.decode("utf-8"))
             target = payload.get("file_path")
